@@ -283,6 +283,22 @@ func runC11(c *runCtx) {
 					act = "status(" + b.Id().Human() + ")"
 					u.act("commit", string(b.Id()))
 				}
+			case x < 10 && r.chance(1, 2):
+				// metadata set later on an operation (on the create operation most of the time: what
+				// the bridges' exporters do to mark a bug as exported)
+				if b := editable(); b != nil {
+					ops := b.Snapshot().Operations
+					target := ops[0].Id()
+					if r.chance(1, 3) {
+						target = pickOne(r, ops).Id()
+					}
+					if _, err := b.SetMetadata(target, map[string]string{pickOne(r, []string{"origin-id", "github-url", "k"}): randHexId(r, 4)}); err != nil {
+						panic(err)
+					}
+					b.CommitAsNeeded()
+					act = "setmeta(" + b.Id().Human() + ")"
+					u.act("commit", string(b.Id()))
+				}
 			case x < 10:
 				if b := editable(); b != nil {
 					tokN++
